@@ -148,7 +148,7 @@ func (s *Sim) hasWork(n *Node) bool {
 		return false
 	}
 	if n.Opts.Async {
-		return n.RN.HasReady() || (len(n.AppendQ) > 0 && !n.SlowAppend) || (len(n.ApplyQ) > 0 && !n.SlowApply) || len(n.SelfQ[0]) > 0 || len(n.SelfQ[1]) > 0
+		return n.RN.HasReady() || (len(n.AppendQ) > 0 && !n.SlowAppend) || (len(n.ApplyQ) > 0 && !n.SlowApply) || (len(n.SelfQ[0]) > 0 && !n.SlowAck) || len(n.SelfQ[1]) > 0
 	}
 	return n.Phase != PhaseIdle || n.RN.HasReady()
 }
@@ -499,7 +499,7 @@ func (s *Sim) service(n *Node) bool {
 	if n.Opts.Async {
 		for i := 0; i < 50 && n.Up; i++ {
 			switch {
-			case len(n.SelfQ[0]) > 0:
+			case len(n.SelfQ[0]) > 0 && !n.SlowAck:
 				s.selfStep(n, 0)
 			case len(n.SelfQ[1]) > 0:
 				s.selfStep(n, 1)
